@@ -1,13 +1,13 @@
-\* as coded, replayable interleavings, small threshold (replayed on the real
-\* code with 1022 filler elements per set so that T = 2 corresponds to 1024):
+\* as coded, ONE client (sequential histories), small threshold: replayed on the
+\* real code with 1022 filler elements per set so that T = 2 corresponds to 1024;
 \* prints the history of every get that violates ReadYourWrites
 SPECIFICATION Spec
 CONSTANTS
   Keys = {0}
   Elems = {1, 2, 3}
-  Clients = {1, 2}
+  Clients = {1}
   MaxBatches = 2
-  MaxOps = 3
+  MaxOps = 5
   T = 2
   LostInsert = TRUE
   FlushMax = TRUE
